@@ -157,7 +157,7 @@ def close(a, b, abs_tol, rel=0.0):
 # edge of the other and the two edges overlap — boxes that coincide up to rounding, or a box nested in another with the
 # same yaw and a shared side line or corner — the GEOS overlay behind shapely's Polygon.intersection can return a
 # degenerate geometry (shared corners as a MULTIPOINT, area 0) in ONE argument order, so the library reports IoU 0 for
-# boxes that overlap.  Measured: ~0.9 % of same-centre / same-yaw / same-width pairs, ~0.25 % of copies perturbed by one
+# boxes that overlap — or a polygon that is up to ~10 % too large, so that boxes coinciding up to rounding get IoU > 1.  Measured: ~0.9 % of same-centre / same-yaw / same-width pairs, ~0.25 % of copies perturbed by one
 # ulp per parameter, none in 360 000 pairs without such an edge pair.
 NC_SIG = "collinear-overlapping-edges-intersection-lost"
 
@@ -187,11 +187,10 @@ def near_coincident(a, b):
 
 
 def nsig(nc, sig, *scores):
-    """Signature of a failed IoU comparison: the known finding only for a pair with collinear overlapping edges whose
-    library BEV IoU collapsed to (numerically) nothing."""
-    if nc and any(sc is not None and sc["iou2"] <= 1e-9 for sc in scores):
-        return NC_SIG
-    return sig
+    """Signature of a failed IoU comparison: the known finding for every pair with collinear overlapping edges (there the
+    GEOS overlay returns either nothing — IoU 0 — or a polygon that is too large — IoU up to ~10 % too high, > 1 for boxes that
+    coincide up to rounding); the ordinary signature for all other pairs."""
+    return NC_SIG if nc else sig
 
 
 @CHECK.given("pairs3d", lambda tier: pairs3d(tier), quick=700, thorough=160000)
@@ -224,7 +223,7 @@ def pairs3d_body(ctx, d):
     ctx.require(close(s["iou3"], r_iou3, 1e-7), nsig(nc, "iou3d-value", s), lambda: f"3D IoU {s['iou3']} vs reference {r_iou3} ({d['kind']})")
     # bounds
     for k in ("iou2", "iou3"):
-        ctx.require(-1e-9 <= s[k] <= 1 + 1e-9, "iou-out-of-bounds", lambda: f"{k} = {s[k]}")
+        ctx.require(-1e-9 <= s[k] <= 1 + 1e-9, nsig(nc, "iou-out-of-bounds"), lambda: f"{k} = {s[k]}")
     ctx.require(s["iou3"] <= s["iou2"] + 1e-9, "iou3d-exceeds-iou2d", lambda: f"IoU3D {s['iou3']} > IoU2D {s['iou2']}")
     ctx.require(s["pd"] >= 0 and s["cd"] >= 0, "negative-distance", lambda: f"{s}")
     # plane distance from its definition (GT = b)
